@@ -155,7 +155,9 @@ def run_kani(src, harnesses, extra_args=None, timeout=3600, jobs=None, group=Non
 
 def run_groups(prop, cfg, tier):
     groups = [g for g, _ in cfg["kani"]]
-    bounded = cfg.get("bounded", []) if tier == "thorough" or cfg.get("bounded_in_quick") else []
+    bounded = list(cfg.get("bounded_quick", []))
+    if tier == "thorough" or cfg.get("bounded_in_quick"):
+        bounded += cfg.get("bounded", [])
     for b in bounded:
         if b["group"] not in groups:
             groups.append(b["group"])
@@ -203,7 +205,19 @@ def run_groups(prop, cfg, tier):
                                           "failed_checks": [], "checks": 0})
         result["groups"].append(gres)
     for b in bounded:
-        r = run_kani(src, [b["name"]], extra_args=b.get("args"), timeout=b.get("timeout", 3600), group=b["group"])
+        bsrc = src
+        binfo = KANI_GROUPS[b["group"]]
+        if "fragment_unit" in binfo:
+            bsrc = result.get("frag_src", {}).get(b["group"])
+            if not bsrc:
+                bsrc, err = prepare_fragment(prop, b["group"])
+                if bsrc:
+                    result.setdefault("frag_src", {})[b["group"]] = bsrc
+            if not bsrc:
+                result["bounded"].append({"name": b["name"], "status": "undecided", "failed_checks": [], "checks": 0,
+                                          "reason": err, "bound": b["bound"], "group": b["group"]})
+                continue
+        r = run_kani(bsrc, [b["name"]], extra_args=b.get("args"), timeout=b.get("timeout", 3600), group=b["group"])
         parsed = parse_output(r["out"])
         h = parsed.get(b["name"], {"name": b["name"], "status": "undecided", "failed_checks": [], "checks": 0,
                                    "reason": "no result: " + r["out"].strip()[-300:]})
